@@ -1,9 +1,16 @@
 #!/bin/sh
-# Runs every kept seeded change against all property checks (on scratch copies)
-# and prints one line per seed: which properties' checks fire.
+# usage: seedmatrix.sh [seed-id ...]   (default: every kept seed)
+# Runs kept seeded changes against all property checks (on scratch copies, six
+# at a time) and prints one line per seed: which properties' checks fire.
+# Do not rebuild bin/gpcheck while it runs.
 V=$(cd "$(dirname "$0")/.." && pwd)
-for d in "$V"/seeded/*/; do
-  id=$(basename "$d")
-  fired=$("$V/tools/tryseed.sh" "$d/patch.diff" 2>/dev/null | awk '/FIRES/{printf "%s ", $2}')
-  echo "$id: ${fired:-NONE}"
+ids=${*:-$(ls "$V/seeded")}
+out=$(mktemp -d /tmp/gpmatrix-XXXXXX)
+echo $ids | tr ' ' '\n' | xargs -P 6 -I{} sh -c '"$0/tools/tryseed.sh" "$0/seeded/{}/patch.diff" > "$1/{}.log" 2>&1' "$V" "$out"
+for id in $ids; do
+  fired=$(awk '/FIRES/{printf "%s ", $2}' "$out/$id.log")
+  own=$(echo "$id" | cut -d- -f1)
+  mark=""; echo " $fired" | grep -q " $own " || mark="   <-- own property silent"
+  echo "$id: ${fired:-NONE}$mark"
 done
+rm -rf "$out"
